@@ -49,6 +49,23 @@ func (fc *FnCtx) contractEnv(fn *ssa.Function, args []Val, results []Val, old, c
 				env.vars[p.Name()] = args[i]
 			}
 		}
+		if len(fn.Params) == 0 && len(fn.Blocks) == 0 {
+			// body-less function of a dependency (loaded from export data): names come from the signature
+			off := 0
+			if rv := fn.Signature.Recv(); rv != nil && len(args) > 0 {
+				if rv.Name() != "" && rv.Name() != "_" {
+					env.vars[rv.Name()] = args[0]
+				}
+				env.vars["self"] = args[0]
+				off = 1
+			}
+			ps := fn.Signature.Params()
+			for i := 0; i < ps.Len() && i+off < len(args); i++ {
+				if n := ps.At(i).Name(); n != "" && n != "_" {
+					env.vars[n] = args[i+off]
+				}
+			}
+		}
 		if fn.Signature.Recv() != nil && len(args) > 0 {
 			r := args[0]
 			env.recv = &r
